@@ -150,8 +150,9 @@ def run(ck):
             for tr_ in [x for x in own_nodes(rf.node) if isinstance(x, ast.Try) and any(
                     set(handler_types(h)) >= {'Exception', 'CancelledError'} for h in x.handlers)]:
                 in_try |= {id(y) for st_ in tr_.body for y in ast.walk(st_)}
+            try_nodes = {x.id for x in g.nodes if x.ast is not None and id(x.ast) in in_try}
             return bool(vals_) and all(not isinstance(v_, str) and norm(v_) == 'self._error' for v_ in vals_) \
-                and all(id(d.ast) not in in_try for d in defs_)
+                and all(id(d.ast) not in in_try and not (g.reachable_from(d) & try_nodes) for d in defs_)
         return False
     ok = bool(late) and all(_is_slot(n, n.ast.exc) for n in late)
     ck.ob(R2, f"{rf.fid} :: final raise", ok,
